@@ -797,6 +797,18 @@ func TestC12_MembershipHistories(t *testing.T) {
 			g := groups[rapid.IntRange(0, len(groups)-1).Draw(rt, "group")]
 			st := model[g]
 			op := rapid.SampledFrom([]string{"join", "joinOn", "joinSrcSelf", "joinSrcOther", "leave", "leaveSrcSelf", "leaveSrcOther", "blockSelf", "blockOther", "unblockSelf", "unblockOther", "swapBuffer", "traffic", "traffic"}).Draw(rt, "op")
+			// the undoing operations only mean something in the state their counterpart produced: steer towards them there
+			// (the sender of the traffic is srcSelf, so these are the ones whose effect the traffic shows)
+			if rapid.IntRange(0, 2).Draw(rt, "undo") == 0 {
+				switch {
+				case st.blocked[srcSelf]:
+					op = "unblockSelf"
+				case st.mode == "any" && len(st.blocked) == 0 && rapid.Bool().Draw(rt, "block"):
+					op = "blockSelf"
+				case st.mode == "include" && st.include[srcSelf]:
+					op = "leaveSrcSelf"
+				}
+			}
 			// Linux allows a mode switch on an empty source list: IP_DROP_SOURCE_MEMBERSHIP on an any-source membership
 			// fails but leaves the membership in include mode with no sources. That is kernel behaviour, not the
 			// library's: LeaveSource is only generated for source-specific memberships.
@@ -842,7 +854,11 @@ func TestC12_MembershipHistories(t *testing.T) {
 				if op == "joinSrcOther" {
 					src = srcOther
 				}
-				err = mp.JoinSourceOn(multicast.IP(gs(g)), multicast.SourceIP(src), ifName)
+				if rapid.Bool().Draw(rt, "anyInterface") {
+					err = mp.JoinSource(multicast.IP(gs(g)), multicast.SourceIP(src)) // the interface the kernel picks (there is one)
+				} else {
+					err = mp.JoinSourceOn(multicast.IP(gs(g)), multicast.SourceIP(src), ifName)
+				}
 				if err == nil {
 					st.mode = "include"
 					st.include[src] = true
